@@ -1,1 +1,44 @@
-fn main() {}
+//! Engine `vf_sinks`: C14 (sink adaptors) and C15 (merged network sources).
+//!
+//! Both properties are decided by exhaustive, deviation-bounded enumeration
+//! (`vf_explore::explore`) of scripted environments around the REAL `/repo` code
+//! (`sinktools`, `hydro_deploy_integration::{MergeSource, TaggedSource}`).
+use vf_explore::{Report, cli, quiet_panics};
+
+mod c14;
+mod c15;
+
+fn main() {
+    let cli = cli();
+    quiet_panics();
+    if let Some(file) = &cli.replay {
+        let txt = std::fs::read_to_string(file).unwrap_or_else(|e| {
+            println!("MACHINERY-ERROR: cannot read replay file {file}: {e}");
+            std::process::exit(2);
+        });
+        let v: vf_explore::Value = vf_explore::serde_json::from_str(&txt).unwrap_or_else(|e| {
+            println!("MACHINERY-ERROR: replay file is not JSON: {e}");
+            std::process::exit(2);
+        });
+        let case = v.get("case").cloned().unwrap_or(v);
+        let violated = match cli.property.as_str() {
+            "C14" => c14::replay(&case),
+            "C15" => c15::replay(&case),
+            p => {
+                println!("MACHINERY-ERROR: vf_sinks does not serve property {p}");
+                std::process::exit(2);
+            }
+        };
+        std::process::exit(if violated { 1 } else { 0 });
+    }
+    let mut rep = Report::new(&cli.property, &cli.tier, "vf_sinks");
+    match cli.property.as_str() {
+        "C14" => c14::run(&mut rep),
+        "C15" => c15::run(&mut rep),
+        p => {
+            println!("MACHINERY-ERROR: vf_sinks does not serve property {p}");
+            std::process::exit(2);
+        }
+    }
+    rep.finish();
+}
